@@ -3417,6 +3417,11 @@ class NetCDFWrite(IOWrite):
                             f = self.implementation.field_insert_dimension(
                                 f, position=0, axis=axis
                             )
+                            # The data array now spans this axis, so
+                            # that auxiliary coordinates which span it
+                            # are not written as scalar coordinate
+                            # variables
+                            data_axes.append(axis)
                     else:
                         # Scalar coordinate variables are being
                         # allowed; and there are NO auxiliary
